@@ -10,7 +10,7 @@ TNAMES = ["acct", "b_item", "cust", "dept", "evt", "f1", "grp", "h2o", "inv", "j
 CNAMES = ["id", "a", "b", "c", "d", "e", "name", "qty", "ref", "ts", "flag", "x1", "y_2", "note", "amt"]
 
 STR_PLAIN = ["abc", "a b", "5", "x)", "(", "hello world", "0", "a,b", "N/A", '"q"', "%", "CURRENT_TIMESTAMP"]
-STR_ODD = ["it's", "", "(abc)", "'", "a\nb", "''", "(1)", "o'clock", "\n"]
+STR_ODD = ["it's", "", "(abc)", "'", "a\nb", "''", "(1)", "o'clock", "\n", "[:b1", " :x", "a :b c"]
 EXPR_PLAIN = ["0", "1", "10", "-1", "1.5", "'abc'", "'it''s'", "''", "'a b'", "CURRENT_TIMESTAMP", "NULL", "TRUE", "FALSE",
               "(1 + 2)", "(datetime('now'))", "(abs(-3))", "'(x)'", "x'00'", "42", "'5'", "(7)", "CURRENT_DATE", "(1 + (2))"]
 EXPR_ODD = ["((1))", "( 1 )", " 7 ", "((1) + (2))", "( 'a' )", "((1 + 2))"]
@@ -45,7 +45,7 @@ def gen_default(rng, odd=False):
     if rng.random() < 0.45:
         v = rng.choice(STR_PLAIN)
         if rng.random() < 0.3:
-            v = "".join(rng.choice("abcXYZ 019_-.,;:!?()[]") for _ in range(rng.randint(1, 8)))
+            v = "".join(rng.choice("abcXYZ 019_-.,;!?()[]") for _ in range(rng.randint(1, 8)))
             if v.startswith("(") and v.endswith(")") and len(v) >= 3:
                 v = "s" + v
         return {"kind": "str", "v": v}
@@ -330,11 +330,16 @@ def default_plain(d):
 
 def schema_flags(schema):
     """which parts of the class a schema leaves: returns a set of tags (empty = inside the proved class)"""
+    import re
     tags = set()
     for t in schema["tables"]:
         for c in t["cols"]:
-            if not default_plain(c.get("default")):
-                tags.add("default-not-plain")
+            d = c.get("default")
+            if d is not None:
+                if not default_plain(d):
+                    tags.add("default-str-nonplain" if d["kind"] == "str" else "default-expr-nonplain")
+                if re.search(r"(?<![:\w\x5c]):(\w+)(?!:)", d["v"]):
+                    tags.add("default-bindlike")
             if c["ty"]["fam"] in UNREFLECTABLE:
                 tags.add("type-not-reflectable")
     return tags
